@@ -31,7 +31,7 @@ META = {
                   "3-5 source shapes and each run is judged by TLC against the reference.",
     "level_note": "Trusted: TLC, the Json module, the driver's concretisers (statement -> source line bookkeeping) and recorder. "
                   "One goroutine only; values are ints; runtime faults other than panic(k) are C05's; method declarations are rejected by "
-                  "Scriggo ('not supported in this release') so the method shape is dropped and counted; OpTailCall is never emitted by the "
+                  "Scriggo ('not supported in this release'), so there is no method shape; OpTailCall is never emitted by the "
                   "compiler, so the tailed status is unreachable. The reference was audited against gc (C12_GC_AUDIT=1) on every generated "
                   "program that has no Stop/Fatal; gc is otherwise consulted only on the violation path (oracle guard).",
     "design_ref": "7/C12, 7/C01 item 2, Appendix D",
@@ -47,10 +47,16 @@ PROPOSED_KNOWN = [
      "what": "PanicError chain keeps a stale (value, recovered=true) link: nextCall `case returned, recovered` swaps in the next "
              "pending deferred call before popping the recovered panic; if that call panics the finished panic is still linked "
              "(defer f1(); defer f2(); panic(1); f2 recovers, f1 panics 2 -> chain (2)(1 recovered), gc: panic: 2)"},
-    {"kind": "known", "signature": {"fam": "panicflow", "cause": "native-defer-while-panicking", "got": "hostpanic"},
+    {"kind": "known", "signature": {"fam": "panicflow", "cause": "native-defer-while-panicking", "explained": True},
      "what": "a native/builtin function deferred directly (defer println(8), defer ext.Stop(e), defer panic(2)) that runs while the "
-             "goroutine is panicking crashes Run with a nil pointer dereference: nextCall calls callNative with vm.fn == nil "
-             "(env.callPath = vm.fn.InstructionInfo...) and convertPanic dereferences vm.fn again"},
+             "goroutine is panicking: nextCall's panicked case calls it in place and continues the loop below the panicked frame - "
+             "Run crashes with a nil pointer dereference (vm.fn == nil in callNative / `case deferred` / convertPanic) or the caller "
+             "is resumed as if the panicking function had returned (statements after the call run, Stop/Fatal/ok outcomes instead of the PanicError)"},
+    {"kind": "known", "signature": {"fam": "panicflow", "cause": "recovered-pop-miscount", "explained": True},
+     "what": "after a recover nextCall pops panics until their number equals the number of panicked frames; a frame whose panic was "
+             "aborted by a newer panic of one of its deferred calls holds two panics, so an active panic is popped too: "
+             "defer f2(); defer f3(); panic(1) | f2: defer f4(); panic(2) | f3: panic(3) | f4: recover() returns PanicError 1 "
+             "instead of 3 (chain 3, 1)"},
     {"kind": "known", "signature": {"fam": "panicflow", "cause": "native-defer-raises-at-return", "got": "hostpanic"},
      "what": "a directly deferred native call that panics or calls Fatal when the function returns normally (defer panic(2); "
              "defer ext.Fatal(v)) leaves Run as a host panic (with 2 / with a *fatalError wrapping v) instead of a *PanicError / v: "
@@ -74,16 +80,22 @@ def configs(ctx):
     """bounded program spaces explored exhaustively in ONE TLC run: (name, MaxStmts, MaxDepth, MaxNative, Forms)"""
     if ctx.quick:
         return [("core", 4, 3, 0, set(CORE)),
-                ("flow", 6, 3, 0, {"defer", "panic", "recover"}),
+                ("flow", 5, 3, 0, {"defer", "panic", "recover"}),
                 ("native", 3, 3, 2, set(CORE + NATIVE))]
     return [("core", 5, 3, 0, set(CORE)),
-            ("flow", 6, 3, 0, {"call", "defer", "panic", "recover"}),
-            ("flow7", 7, 3, 0, {"defer", "panic", "recover"}),
+            ("flow", 7, 3, 0, {"defer", "panic", "recover"}),
             ("native", 4, 3, 2, set(CORE + NATIVE))]
 
 
-def variants(ctx):
-    return ctx.pick(["func", "closure", "template"], ["func", "closure", "callback", "template", "tmacro", "method"])
+def variants(ctx, space="core"):
+    """source shapes each program is run in.  The pure control-flow space (defer/panic/recover only, the largest programs) is run
+    as Go functions and as template blocks; everything else in every shape.  (Method declarations are rejected by Scriggo -
+    'not supported in this release' - so there is no method shape.)"""
+    if ctx.quick:
+        return ["func", "closure", "template"]
+    if space == "flow":
+        return ["func", "template"]
+    return ["func", "closure", "callback", "template", "tmacro"]
 
 
 CASE_RE = re.compile(r'^<<"CASE", (".*")>>$')
@@ -224,7 +236,7 @@ def gc_observe(ctx, cases, tag):
         nf = len(s["prog"])
         return {"id": s["id"], "prog": s["prog"],
                 "runs": [{"variant": "gc", "built": True, "out": out, "outcome": outcome, "val": 0, "chain": chain,
-                          "lines": [[0] * len(b) for b in s["prog"]], "paths": [""] * nf, "after": 0, "ends": 0}]}
+                          "lines": [[0] * len(b) for b in s["prog"]], "paths": [""] * nf, "pkgs": [""] * nf, "after": 0, "ends": 0}]}
 
     with ThreadPoolExecutor(max_workers=rig.NCPU) as ex:
         return list(ex.map(run, srcs))
@@ -308,7 +320,7 @@ def run(ctx, only_cases=None):
             if key in by_prog:
                 continue
             by_prog[key] = c
-            cases.append({"id": len(cases) + 1, "prog": c["prog"]})
+            cases.append({"id": len(cases) + 1, "prog": c["prog"], "variants": variants(ctx, cfgs[c["space"] - 1][0])})
             if not c["agree"]:
                 model["flow:" + (c["why"] or "unlabelled")] += 1
             elif not c["agreepos"]:
@@ -322,7 +334,7 @@ def run(ctx, only_cases=None):
                        model_counterexample=dict(model))
         if not ctx.quick:
             ctx.cov["actions_never_taken"] = r.coverage_zero()
-        extra = ctx.pick(400, 20000)
+        extra = ctx.pick(400, 12000)
     else:
         cases, extra, by_prog = only_cases, 0, {}
     lap("model_check")
@@ -339,7 +351,7 @@ def run(ctx, only_cases=None):
     if strange:
         raise Infra(f"{strange} runs logged values the recorder does not understand (driver/concretiser problem)")
     for v in vs:
-        if v != "method" and notbuilt.get(v, 0) > 0:
+        if notbuilt.get(v, 0) > 0:
             ex_ = next(r for o in allobs for r in o["runs"] if r["variant"] == v and not r["built"])
             raise Infra(f"concretiser problem: {notbuilt[v]} {v} programs do not build: {ex_.get('builderr')}")
     lap("drive")
@@ -379,6 +391,7 @@ def run(ctx, only_cases=None):
             if b["id"] not in ids:
                 ids.add(b["id"])
                 ccases.append({"id": b["id"], "prog": b["obs"]["prog"], "variants": [r["variant"] for r in b["obs"]["runs"]]})
+                # (same shapes, same order as in the first pass, so that run indices correspond)
         cc, co = ctx.work / "confirm_cases.ndjson", ctx.work / "confirm_obs.ndjson"
         rig.write_ndjson(cc, ccases)
         ctx.drive("c12", cc, co, args=["-variants", ",".join(vs)])
